@@ -21,6 +21,7 @@ type Clause struct {
 	Src   string   // source text (after ==> rewriting)
 	Expr  ast.Expr // parsed
 	Where string   // file:line of the clause
+	Local bool     // "detail": proved for the function itself, not assumed at its call sites (callers do not need it)
 }
 
 type LoopSpec struct {
@@ -60,6 +61,7 @@ type FuncSpec struct {
 	GhostInit []GhostInit // ghost entries of freshly allocated results defined at return
 	NoWrap   bool     // stated assumption: unsigned additions in this function do not wrap around
 	Opaque   []string // predicates kept opaque (uninterpreted over their computed footprint) while verifying this function
+	Inline   bool     // callers translate the body in place (the contract is verified for the function on its own, not used at call sites)
 	Refines  []string // interface methods ("pkg.Iface.Method") whose contract this implementation must satisfy
 }
 
@@ -165,7 +167,7 @@ func extractSpecLines(text string) (lines []string, nums []int) {
 	return
 }
 
-var clauseKeywords = []string{"requires", "ensures", "modifies", "loop", "invariant", "decreases", "let", "fresh", "pure", "trusted", "effect", "crash", "havoc", "assume", "refines", "ghostinit", "assert", "opaque"}
+var clauseKeywords = []string{"requires", "ensures", "modifies", "loop", "invariant", "decreases", "let", "fresh", "pure", "trusted", "effect", "crash", "havoc", "assume", "refines", "ghostinit", "assert", "opaque", "inline", "detail"}
 var blockKeywords = []string{"func", "invoke", "ghost", "spec", "pred", "axiom", "global", "abstraction", "writers", "typeinv", "callbackframe", "locked"}
 
 func firstWord(s string) (string, string) {
@@ -596,6 +598,11 @@ func (sp *Specs) parseSpecText(file, text, pkgPath string) {
 				if c := mkClause(rest, len(cur.Ensures), "ensures"); c != nil {
 					cur.Ensures = append(cur.Ensures, c)
 				}
+			case "detail":
+				if c := mkClause(rest, len(cur.Ensures), "ensures"); c != nil {
+					c.Local = true
+					cur.Ensures = append(cur.Ensures, c)
+				}
 			case "crash":
 				if c := mkClause(rest, len(cur.Crash), "crash"); c != nil {
 					cur.Crash = append(cur.Crash, c)
@@ -693,6 +700,8 @@ func (sp *Specs) parseSpecText(file, text, pkgPath string) {
 				}
 			case "refines":
 				cur.Refines = append(cur.Refines, strings.Trim(strings.TrimSpace(rest), "\""))
+			case "inline":
+				cur.Inline = true
 			case "pure":
 				cur.Pure = true
 			case "trusted":
